@@ -4,7 +4,9 @@
 // an explicit list of operations (reads on several handles, concurrent read batches, state
 // saves, restarts that keep / delete / resize the cache file and keep / delete / replace the
 // state file, restarts with pre-loading, store faults, reads through the go-fuse node).
-// The executor and the oracle are in world_test.go.
+// The executor and the oracle are in world_test.go, the oracle's self-test in self_test.go.
+// testdata/probes/*.json are hand-minimised replay files, one per violation signature seen
+// on the unrepaired tree (./check C10 --replay <file>); they are not run automatically.
 package c10
 
 import (
@@ -290,6 +292,13 @@ func genCase(t *rapid.T) Case {
 			case 3: // cache file lost or cut between runs, the next run dies without saving, third run reuses what is there
 				op.State = "kept"
 				op.Cache = rapid.SampledFrom([]string{"deleted", "truncated"}).Draw(t, "lost")
+				if rapid.Bool().Draw(t, "refill") { // ... and that run re-fills the new cache file from a state file while the store misbehaves
+					op.Init = rapid.SampledFrom([]string{"same", "same", "saved", "all"}).Draw(t, "refillfrom")
+					op.N = rapid.IntRange(1, 4).Draw(t, "refilln")
+					if rapid.Bool().Draw(t, "refillfault") {
+						ops = append(ops, Op{Kind: "fail", K: rapid.SampledFrom([]int{1, 2, 3, 0}).Draw(t, "refillk")})
+					}
+				}
 				ops = append(ops, op)
 				for k, n := 0, rapid.IntRange(0, 2).Draw(t, "between"); k < n; k++ {
 					r := genRead(t, spans, L, mx)
@@ -315,7 +324,9 @@ func genCase(t *rapid.T) Case {
 		}
 		return ops
 	})
-	for _, ops := range rapid.SliceOfN(step, 1, hx.Pick(24, 60)).Draw(t, "ops") {
+	// rapid favours short slices; a drawn lower bound keeps histories long (it shrinks to 1 first)
+	minSteps := rapid.IntRange(1, hx.Pick(16, 40)).Draw(t, "minsteps")
+	for _, ops := range rapid.SliceOfN(step, minSteps, hx.Pick(24, 60)).Draw(t, "ops") {
 		c.Ops = append(c.Ops, ops...)
 	}
 	return c
